@@ -87,6 +87,42 @@ def quoted_slots(fmt):
     return out
 
 
+def float_printer(funcs):
+    """A branch `if isinstance(v, float): t = repr(v); [if "a" in t and "b" not in t: t = t.replace(x, y)]*; return t` in the
+    serialiser -> (line, [(chars that must be present, chars that must be absent, x, y), ...]); None when floats take the generic path."""
+    for f in funcs:
+        for n in own_nodes(f.node):
+            if not (isinstance(n, ast.If) and isinstance(n.test, ast.Call) and isinstance(n.test.func, ast.Name) and n.test.func.id == "isinstance" and len(n.test.args) == 2 and K.src(n.test.args[1]) == "float"):
+                continue
+            v = K.src(n.test.args[0])
+            t = None
+            steps = []
+            for st in n.body:
+                if isinstance(st, ast.Assign) and len(st.targets) == 1 and isinstance(st.targets[0], ast.Name) and isinstance(st.value, ast.Call) and K.src(st.value.func) in ("repr", "str", "six.text_type") and len(st.value.args) == 1 and K.src(st.value.args[0]) == v and t is None:
+                    t = st.targets[0].id
+                elif isinstance(st, ast.If) and t is not None and not st.orelse and len(st.body) == 1:
+                    tests = st.test.values if isinstance(st.test, ast.BoolOp) and isinstance(st.test.op, ast.And) else [st.test]
+                    present, absent = [], []
+                    for c in tests:
+                        if isinstance(c, ast.Compare) and len(c.ops) == 1 and isinstance(c.left, ast.Constant) and isinstance(c.left.value, str) and len(c.left.value) == 1 and isinstance(c.comparators[0], ast.Name) and c.comparators[0].id == t and isinstance(c.ops[0], (ast.In, ast.NotIn)):
+                            (present if isinstance(c.ops[0], ast.In) else absent).append(c.left.value)
+                        else:
+                            raise AnalysisError("C15.a: float formatting condition `%s` is outside the recognised forms" % K.src(c))
+                    b = st.body[0]
+                    ok = isinstance(b, ast.Assign) and len(b.targets) == 1 and isinstance(b.targets[0], ast.Name) and b.targets[0].id == t and isinstance(b.value, ast.Call) and isinstance(b.value.func, ast.Attribute) and b.value.func.attr == "replace" and K.src(b.value.func.value) == t and len(b.value.args) == 2 and all(isinstance(a, ast.Constant) and isinstance(a.value, str) for a in b.value.args)
+                    if not ok:
+                        raise AnalysisError("C15.a: float formatting step `%s` is outside the recognised forms" % K.src(b)[:60])
+                    steps.append((present, absent, b.value.args[0].value, b.value.args[1].value))
+                elif isinstance(st, ast.Return) and isinstance(st.value, ast.Name) and st.value.id == t:
+                    return n.lineno, steps
+                elif isinstance(st, ast.Return) and isinstance(st.value, ast.Call) and K.src(st.value.func) in ("repr", "str", "six.text_type") and t is None:
+                    return n.lineno, []
+                else:
+                    raise AnalysisError("C15.a: the float branch of the serialiser contains `%s`, outside the recognised forms" % K.src(st)[:60])
+            raise AnalysisError("C15.a: the float branch of the serialiser does not return its text")
+    return None
+
+
 def run(ctx, idx):
     ctx.assume("str()/repr() of int prints -?d+; of float prints d+.d+, d(.d+)?e[+-]dd+, inf or nan (reference languages fixed by Python)")
     ctx.rule("C15.a", "Numbers: every text the serialiser can print for an int or float is read back as a number: L_repr_int ⊆ L(INT) and L_repr_float ⊆ L(FLOAT) ∪ (single plain token that float() accepts).")
@@ -122,11 +158,37 @@ def run(ctx, idx):
     ctx.ob("C15.a", "%s::integers-reload" % ts.key, rel, printers[0][1].lineno, w is None, "every printed int is an INT token" if w is None else "str(int) can print %r, which the lexer does not read as INT" % w)
     # floats: FLOAT, or a single ID/PLAIN_STRING token whose text float() accepts (NumberParameter.clean converts it)
     fl = RL.dfa(RL.L_REPR_FLOAT)
+    classes = [("exponent form without a fraction", r"-?[0-9]e[+\-][0-9][0-9]+"), ("exponent form with a fraction", r"-?[0-9]\.[0-9]+e[+\-][0-9][0-9]+"), ("plain decimal", r"-?[0-9]+\.[0-9]+"), ("inf/nan", r"-?(inf|nan)")]
+    fp = float_printer(funcs)
+    if fp is not None:
+        # the serialiser formats floats itself: repr()/str() followed by conditional single-character rewrites; apply them per class
+        line_fp, steps = fp
+        out_classes = []
+        for name, pat in classes:
+            d0 = RL.dfa(pat)
+            for present, absent, old_c, new_s in steps:
+                def always(ch):
+                    return RL.not_included(d0, RL.dfa("[\\s\\S]*%s[\\s\\S]*" % ("\\" + ch if not ch.isalnum() else ch))) is None
+
+                def never(ch):
+                    return RL.contains(d0, {ch}) is None
+                verdicts = [always(c) for c in present] + [never(c) for c in absent]
+                decided = all(always(c) or never(c) for c in present + absent)
+                if not decided:
+                    raise AnalysisError("C15.a: the float formatter's condition is not uniform over the %s" % name)
+                if all(verdicts):
+                    if pat.count(old_c) != 1 or not old_c.isalnum():
+                        raise AnalysisError("C15.a: cannot apply the float formatter's rewrite %r -> %r to the %s" % (old_c, new_s, name))
+                    pat = pat.replace(old_c, "".join("\\" + ch if not ch.isalnum() else ch for ch in new_s))
+                    d0 = RL.dfa(pat)
+            out_classes.append((name, pat))
+        classes = out_classes
+        fl = RL.dfa("|".join("(%s)" % p_ for _n, p_ in classes))
     w = RL.not_included(fl, dfas["FLOAT"])
     witnesses = []
     if w is not None:
         # enumerate the failing sub-languages separately
-        for name, pat in (("exponent form without a fraction", r"-?[0-9]e[+\-][0-9][0-9]+"), ("exponent form with a fraction", r"-?[0-9]\.[0-9]+e[+\-][0-9][0-9]+"), ("plain decimal", r"-?[0-9]+\.[0-9]+"), ("inf/nan", r"-?(inf|nan)")):
+        for name, pat in classes:
             d = RL.dfa(pat)
             ww = RL.not_included(d, dfas["FLOAT"])
             if ww is None:
@@ -260,7 +322,7 @@ def run(ctx, idx):
                         loader_wraps = True
     for f in funcs:
         for n in own_nodes(f.node):
-            if isinstance(n, (ast.GeneratorExp, ast.ListComp)) and K.src(n.generators[0].iter).endswith(".value") and isinstance(n.elt, ast.Call) and isinstance(n.elt.func, ast.Name) and n.elt.func.id in byname:
+            if isinstance(n, (ast.GeneratorExp, ast.ListComp)) and (K.src(n.generators[0].iter).endswith(".value") or isinstance(n.generators[0].iter, ast.Name)) and isinstance(n.elt, ast.Call) and isinstance(n.elt.func, ast.Name) and n.elt.func.id in byname:
                 g = byname[n.elt.func.id]
                 first = g.node.args.args[0].arg if g.node.args.args else None
                 for m in own_nodes(g.node):
